@@ -1035,9 +1035,9 @@ theorem conv_enum_range (fenv : FEnv) (cls : Str) (ms : List Str) (s : Str) (v :
   · rename_i hm; cases h; exact ⟨s, rfl, by simpa using hm⟩
   · cases h
 
-/-! ### 4. kept visible: the heterogeneous-tuple option given twice (open finding) -/
+/-! ### 4. never a traceback (full since the repair of the `parse_tuple` counter, fix b1a5942) -/
 
-/-- the unrestricted "never a traceback" statement … -/
+/-- the unrestricted statement over arbitrary tables … -/
 def NoTraceback : Prop :=
   ∀ (fenv : FEnv) (tbl : List Act) (argv : List Str) (e : Str),
     runStrict fenv tbl (tbl.map (fun _ => 0)) argv ≠ .raise e
@@ -1047,18 +1047,28 @@ def tupTbl : List Act :=
       conv := .tupleCounter [.int, .str], choices := none, required := false,
       default := some (.sc .none) } ]
 
-/-- … is false today: `--t 1 a --t 2 b` on a `Tuple[int, str]` field raises IndexError -/
-theorem c04_tuple_twice_witness : ¬ NoTraceback := by
-  intro h
-  exact h [] tupTbl ["--t".toList, "1".toList, "a".toList, "--t".toList, "2".toList, "b".toList]
-    "IndexError".toList (by decide)
+/-- regression (finding C04-hetero-tuple-option-twice, repaired by b1a5942): `--t 1 a --t 2 b` on
+    a `Tuple[int, str]` field raised IndexError from the closure counter; now the last occurrence
+    wins and the counter is back at a multiple of the arity -/
+example : runStrict [] tupTbl (tupTbl.map (fun _ => 0))
+      ["--t".toList, "1".toList, "a".toList, "--t".toList, "2".toList, "b".toList]
+    = .ok [("c.t".toList, .list [.int 2, .str "b".toList])] [] [4] := by decide
 
-/-- … and it holds for tables without stateful `parse_tuple` closures (every other converter of
-    the model answers ok / typeErr / unmodelled) whose boolean actions are the ones simple-parsing
-    builds (`nargs='?'`, `type=str2bool`) -/
+/-- the well-formedness every table built by simple-parsing has: a `parse_tuple` closure is over
+    at least one item type (`parse_tuple(())` substitutes `(Any, ...)`), and boolean actions are the
+    ones simple-parsing builds (`nargs='?'`, `type=str2bool`) -/
 structure NoRaiseTbl (tbl : List Act) : Prop where
-  stateless : ∀ a ∈ tbl, ∀ cs, a.conv ≠ .tupleCounter cs
+  stateless : ∀ a ∈ tbl, ∀ cs, a.conv = .tupleCounter cs → cs ≠ []
   boolwf : ∀ a ∈ tbl, ∀ negs, a.kind = .boolOpt negs → a.nargs = .opt ∧ a.conv = .base .bool
+
+/-- the only way the model can raise from a converter: a closure over no item type at all — which
+    the unrestricted statement does not exclude -/
+theorem c04_no_traceback_illformed_witness : ¬ NoTraceback := by
+  intro h
+  exact h [] [ { opts := ["--t".toList], dest := "c.t".toList, kind := .store, nargs := .num 1,
+                 conv := .tupleCounter [], choices := none, required := false,
+                 default := some (.sc .none) } ] ["--t".toList, "1".toList]
+    "IndexError".toList (by decide)
 
 def NoRaise : EOut → Prop
   | .raise _ => False
@@ -1090,14 +1100,18 @@ theorem union_noraise (fenv : FEnv) (cs : List BConv) (s : Str) (x : Str) :
     · exact ih
 
 theorem conv_noraise (fenv : FEnv) (c : Conv) (k : Nat) (s : Str) (x : Str)
-    (h : ∀ cs, c ≠ .tupleCounter cs) : c.apply fenv k s ≠ .raise x := by
+    (h : ∀ cs, c = .tupleCounter cs → cs ≠ []) : c.apply fenv k s ≠ .raise x := by
   cases c with
   | base b => exact bconv_noraise fenv b s x
   | union cs => exact union_noraise fenv cs s x
-  | tupleCounter cs => exact absurd rfl (h cs)
+  | tupleCounter cs =>
+    have hne := h cs rfl
+    have hlt : k % cs.length < cs.length := Nat.mod_lt _ (List.length_pos_iff.mpr hne)
+    simp only [Conv.apply, List.getElem?_eq_getElem hlt]
+    exact bconv_noraise fenv _ s x
 
 theorem getValue_noraise (fenv : FEnv) (act : Act) (i : Nat) (cs : List Nat) (s : Str) (e : EOut)
-    (hs : ∀ c, act.conv ≠ .tupleCounter c) (h : getValue fenv act i cs s = .error e) : NoRaise e := by
+    (hs : ∀ c, act.conv = .tupleCounter c → c ≠ []) (h : getValue fenv act i cs s = .error e) : NoRaise e := by
   unfold getValue at h
   simp only at h
   split at h
@@ -1113,7 +1127,7 @@ theorem getValue_noraise (fenv : FEnv) (act : Act) (i : Nat) (cs : List Nat) (s 
     · cases h
 
 theorem getValuesList_noraise (fenv : FEnv) (act : Act) (i : Nat) (cs : List Nat) (toks : List Str)
-    (e : EOut) (hs : ∀ c, act.conv ≠ .tupleCounter c)
+    (e : EOut) (hs : ∀ c, act.conv = .tupleCounter c → c ≠ [])
     (h : getValuesList fenv act i cs toks = .error e) : NoRaise e := by
   induction toks generalizing cs with
   | nil => simp [getValuesList] at h
@@ -1130,7 +1144,7 @@ theorem getValuesList_noraise (fenv : FEnv) (act : Act) (i : Nat) (cs : List Nat
       | ok q => rw [h2] at h; cases h
 
 theorem getValues_noraise (fenv : FEnv) (act : Act) (i : Nat) (cs : List Nat) (toks : List Str)
-    (e : EOut) (hs : ∀ c, act.conv ≠ .tupleCounter c)
+    (e : EOut) (hs : ∀ c, act.conv = .tupleCounter c → c ≠ [])
     (h : getValues fenv act i cs toks = .error e) : NoRaise e := by
   rw [getValues_ok_iff] at h
   cases h1 : getValuesList fenv act i cs toks with
